@@ -749,3 +749,44 @@ def long_runs(role: str, known: t.Set[t.Tuple[str, str]], prop: str) -> t.Tuple[
                 continue  # a fatal step (expected for stale responses): the run goes on from the state before it
             s, g = s2, g2
     return nh, steps, viols
+
+
+# ---------------------------------------------------------------------------------------
+def denotes(role: str, ev: Event, issued_id: int = 0) -> t.Optional[t.Any]:
+    """The message an accepted call event denotes (written down by hand from the API documentation), so that
+    what a send puts on the wire can be compared with an encoding the library did not produce itself."""
+    kind, name, i = ev
+    if kind != "call":
+        return None
+    C = L.LDAPResultCode
+    if name == "unbind":
+        return L.UnbindRequest(0, [])
+    if role == "client":
+        i = issued_id
+        if name == "bind_simple":
+            return L.BindRequest(i, [], 3, "", L.SimpleCredential(""))
+        if name == "bind_sasl":
+            return L.BindRequest(i, [], 3, "", L.SaslCredential("M", b"c"))
+        if name == "search":
+            return L.SearchRequest(i, [], "", L.SearchScope.SUBTREE, L.DereferencingPolicy.NEVER, 0, 0, False, L.FilterPresent("objectClass"), [])
+        if name == "ext":
+            return L.ExtendedRequest(i, [], "1.2", None)
+        return None
+    r = lambda code: L.LDAPResult(code, "", "", [])  # noqa: E731  (the server API always writes an empty referral)
+    return {
+        "bind_response-ok": L.BindResponse(i, [], r(C.SUCCESS), None),
+        "bind_response-sasl": L.BindResponse(i, [], r(C.SASL_BIND_IN_PROGRESS), b"x"),
+        "bind_response-bad": L.BindResponse(i, [], r(C.INVALID_CREDENTIALS), None),
+        "ext_response": L.ExtendedResponse(i, [], r(C.SUCCESS), None, None),
+        "notice": L.ExtendedResponse(i, [], r(C.SUCCESS), NOTICE, None),
+        "entry": L.SearchResultEntry(i, [], "", []),
+        "ref": L.SearchResultReference(i, [], ["u"]),
+        "done": L.SearchResultDone(i, [], r(C.SUCCESS)),
+    }.get(name)
+
+
+def reference_encoding(m: t.Any) -> t.Optional[bytes]:
+    """Canonical RFC 4511 encoding by the independent encoder (None for the unbind, whose library encoding is a listed finding)."""
+    if isinstance(m, L.UnbindRequest):
+        return None
+    return ber.encode(R.encode_message(A.absmsg(m, OPT)))
